@@ -76,6 +76,14 @@ def run(rep):
         done += len(cs)
         nbad += evaluate(rep, cs)
     rep.extra["corpus_cases"] = ncorp
+    if rep.tier == "quick" and nbad == 0:
+        # the thorough tier's small-scope enumeration, sampled: parent values of <= 3 nodes under key `a` against child values
+        # of <= 3 nodes over atoms of every kind and ALL override directives as keys
+        D = gen.enum_trees(3, [1, "x", 1.0, "1"], ["b"])
+        P3 = gen.enum_trees(3, [1, "x", 1.0, "1", "$delete", "$replace", True, None], ["b", "$match", "$delete", "$value", "$replace", "$invert"])
+        pairs = random.Random(rep.seed + 5).sample([(d, s_) for d in D for s_ in P3], 3000)
+        rep.extra["small_scope_pairs_sampled"] = len(pairs)
+        nbad += evaluate(rep, [chain_case([{"a": d, "k": 1}, {"a": s_}], tail=("docs", "alias", "outdocs")) for d, s_ in pairs], shrink_budget=40)
     if rep.tier == "thorough" and nbad == 0:
         # small-scope exhaustive enumeration (additional correspondence, not the proof): every parent value of <= 3 nodes
         # under key `a` against every child value of <= 3 nodes over atoms and ALL override directives as keys,
